@@ -1,8 +1,13 @@
 """C17 — see DESIGN.md §4."""
 from ..spec import run_specs
+from .. import wiring
 
 EXPLANATION = 'Wiring tables: each Section impl returns its own SectionId, SectionId::name/dwo_name agree with the reviewed name table, indexed table accesses use stride = element width, CASE_FOLD_DATA is sorted. Lookup completeness is NOT decided.'
 
 
 def run(rep, ctx):
+    g = ctx.g
     run_specs(rep, ctx, 'C17')
+    wiring.run_W1(rep, g)
+    wiring.run_W3(rep, g)
+    wiring.run_W4(rep, g)
